@@ -41,3 +41,13 @@ REPLAY_HEAD = '''#!/venv/bin/python
 import os, sys
 sys.path.insert(0, os.environ.get('VERIF_REPO', '/repo'))
 '''
+
+
+def pmap(fn, items, procs=None, chunk=2000):
+    """parallel map over a list (fork); fn must be a module-level function"""
+    import multiprocessing as mp
+    procs = procs or min(16, os.cpu_count() or 4)
+    if procs == 1 or len(items) < 2 * chunk:
+        return [fn(x) for x in items]
+    with mp.get_context('fork').Pool(procs) as pool:
+        return pool.map(fn, items, chunksize=chunk)
